@@ -69,6 +69,12 @@ type c10Group struct {
 	md   [8]goldmark.Markdown // index = unsafe | xhtml<<1 | hardwraps<<2
 }
 
+// c10Direct is the base whose renderer flags are handed to html.NewRenderer(...) directly (core CommonMark: the other route
+// by which options reach the renderer).
+func c10Direct(po int) cfg.Spec {
+	return cfg.Spec{Ext: cfg.ExtCore, Direct: true, AutoHeadingID: po != 0, Attribute: po != 0}
+}
+
 func c10Base(ext int, po int) cfg.Spec {
 	return cfg.Spec{Ext: ext, AutoHeadingID: po != 0, Attribute: po != 0, PinTableAlign: true, TableAlign: extension.TableCellAlignAttribute, NoEALB: true}
 }
@@ -675,6 +681,8 @@ func runC10(c *core.Ctx) {
 					c10Check(c, groups, c10Base(e, po), []byte(a))
 				}
 			}
+			c10Check(c, groups, c10Direct(0), []byte(a))
+			c10Check(c, groups, c10Direct(1), []byte(a))
 		}
 	}
 	// 1. exhaustive short strings
@@ -685,6 +693,9 @@ func runC10(c *core.Ctx) {
 			continue
 		}
 		src := []byte(wl.ShortAt(c10Alpha, L, i))
+		if i%4 == 0 {
+			c10Check(c, groups, c10Direct(i/4%2), src)
+		}
 		if c.Quick() {
 			for k := 0; k < 3; k++ {
 				c10Check(c, groups, c10Base((i+3*k)%cfg.NExt, (i/9+k)%2), src)
@@ -716,6 +727,9 @@ func runC10(c *core.Ctx) {
 			e = cfg.ExtAll
 		}
 		base := c10Base(e, r.Intn(2))
+		if i%10 == 9 {
+			base = c10Direct(r.Intn(2))
+		}
 		c10Check(c, groups, base, src)
 		if c.WantSample() && i%5000 == 7 {
 			c.Sample(map[string]any{"group": base.Name(), "input": q(src)})
